@@ -25,6 +25,7 @@ func init() {
 		add(&thorough, q, 2, 2, 3)
 	}
 	add(&quick, 0, 4, 0, 3)
+	add(&quick, 2, 4, 0, 2) // a streamed reader on a queued channel: every queued chunk must still be intact when it is sent
 	add(&quick, 0, 9, 0, 1025)
 	add(&quick, 2, 10, 0, 1025)
 	add(&thorough, 2, 9, 9, 1025)
